@@ -25,6 +25,21 @@ class FaultyFilestore(NativeFilestore):
             raise PermissionError(f"xmc: injected write rejection for {file}")
         return super().write_data(file, data, offset)
 
+    # create / truncate rejections are armed separately (reject_create), used by C14
+    reject_create = False
+
+    def create_file(self, file):
+        if self.reject_create:
+            self.reject_create = False
+            raise PermissionError(f"xmc: injected create rejection for {file}")
+        return super().create_file(file)
+
+    def truncate_file(self, file):
+        if self.reject_create:
+            self.reject_create = False
+            raise PermissionError(f"xmc: injected truncate rejection for {file}")
+        return super().truncate_file(file)
+
 
 class Probe:
     """Evaluated inside the Transaction-Finished indication: the destination file at that moment."""
